@@ -12,7 +12,7 @@ let rec int_of_pos = function XH -> 1 | XO p -> 2 * int_of_pos p | XI p -> 2 * i
 let int_of_n = function N0 -> 0 | Npos p -> int_of_pos p
 
 (* ---- token reader ---- *)
-let toks : string array Stdlib.ref = Stdlib.ref [||]
+let toks : String.t array Stdlib.ref = Stdlib.ref [||]
 let pos = Stdlib.ref 0
 let next () = let t = !toks.(!pos) in incr pos; t
 let next_int () = int_of_string (next ())
@@ -67,6 +67,60 @@ let pr_res (r : res) =
         Buffer.add_string b (string_of_int (int_of_nat m.mend)); Buffer.add_char b ':';
         List.iteri (fun k nd -> if k > 0 then Buffer.add_char b ','; pr_node b nd) m.nodes) ms;
     Buffer.contents b
+
+(* ---- registry dumps (C04 C09 C10 C14) ---- *)
+let rec pr_expr b (e : expr) =
+  let add = Buffer.add_string b in
+  match e with
+  | ELit (cs, v) -> add (if cs then "L 1 " else "L 0 "); add (string_of_int (List.length v));
+    List.iter (fun c -> add " "; add (string_of_int (int_of_n c))) v
+  | ERange (lo, hi) -> add (Printf.sprintf "R %d %d" (int_of_n lo) (int_of_n hi))
+  | EAlt (fm, es) -> add (Printf.sprintf "A %d %d" (if fm then 1 else 0) (List.length es));
+    List.iter (fun x -> add " "; pr_expr b x) es
+  | ECat es -> add (Printf.sprintf "C %d" (List.length es)); List.iter (fun x -> add " "; pr_expr b x) es
+  | ERep (id, mn, mx, e') ->
+    add (Printf.sprintf "P %d %d %d " (int_of_n id) (int_of_nat mn) (match mx with None -> -1 | Some m -> int_of_nat m));
+    pr_expr b e'
+  | EProse -> add "X"
+  | ERef r -> add (Printf.sprintf "F %d" (int_of_n r))
+
+let str_to_string (s : str) = String.concat "." (List.map (fun c -> string_of_int (int_of_n c)) s)
+
+let dump_reg (r : reg option) =
+  match r with
+  | None -> print_endline "REG NONE"
+  | Some r ->
+    Printf.printf "REG %d %d %d\n" (List.length r.objs) (List.length r.defs) (int_of_nat r.epoch);
+    List.iteri (fun i (g : gclass) -> Printf.printf "CLASS %d %s %s\n" (i + 2) (str_to_string g.gmod) (str_to_string g.gcls)) bundled;
+    List.iteri (fun i (o : robj) ->
+        let b = Buffer.create 128 in
+        (match o.odef with
+         | None -> Buffer.add_string b "-"
+         | Some d -> (match List.nth_opt r.defs (int_of_nat d) with Some e -> pr_expr b e | None -> Buffer.add_string b "?"));
+        Printf.printf "OBJ %d %d %s %s %d %d %s\n" i (int_of_n o.ocls) (str_to_string o.okey) (str_to_string o.oname)
+          (match o.odef with None -> -1 | Some d -> int_of_nat d)
+          (match o.oexcl with None -> -1 | Some x -> int_of_n x) (Buffer.contents b)) r.objs;
+    print_endline "END"
+
+let rec read_node () : node =
+  match next () with
+  | "l" -> let v = read_str () in let o = next_int () in let l = next_int () in Leaf (v, nat_of_int o, nat_of_int l)
+  | "n" -> let nm = read_str () in let k = next_int () in
+    let rec go k acc = if k = 0 then List.rev acc else let c = read_node () in go (k - 1) (c :: acc) in
+    Nd (nm, go k [])
+  | t -> failwith ("bad node token " ^ t)
+
+(* ---- histories over the cached engine program (C08 C13 C17) ---- *)
+let hist_state : cstate Stdlib.ref = Stdlib.ref (fun _ -> cnew None None O)
+let hist_epoch = Stdlib.ref 0
+let pr_events (evs : event list) =
+  String.concat " " (List.map (fun ev ->
+      let f tag id (k : ckey) extra =
+        Printf.sprintf "%s%d,%d,%s%s" tag (int_of_n id) (int_of_nat (snd k)) (str_to_string (fst k)) extra in
+      match ev with
+      | EHit (id, k) -> f "H" id k ""
+      | EMiss (id, k) -> f "M" id k ""
+      | ESet (id, k, is_err) -> f "S" id k (if is_err then "!" else "")) evs)
 
 let oracle = function 0 -> sh_id | 1 -> sh_rev | _ -> failwith "oracle"
 
@@ -131,6 +185,43 @@ let () =
             let o = next_int () in let r = next_int () in let s = read_str () in
             print_endline (pr_res (parse_all (oracle o) !g !fuel (n_of_int r) s))
           | "CACHE" -> print_endline (run_cache ())
+          | "HNEW" ->   (* HNEW dflt : all caches fresh with class default limit dflt *)
+            let d = read_optnat () in
+            hist_epoch := 0; hist_state := (fun _ -> cnew d None O)
+          | "HREQ" ->   (* HREQ kind rid i s : kind 0 lparse 1 parse 2 parse_all *)
+            let kind = next_int () in let r = next_int () in let i = next_int () in let s = read_str () in
+            let p = (match kind with
+                | 0 -> lparse_p sh_id !g !fuel (ERef (n_of_int r)) s (nat_of_int i)
+                | 1 -> parse_p sh_id !g !fuel (n_of_int r) s (nat_of_int i)
+                | _ -> parse_all_p sh_id !g !fuel (n_of_int r) s) in
+            let ((res, st'), evs) = run_traced (nat_of_int !hist_epoch) !hist_state p [] in
+            hist_state := st';
+            print_endline (pr_res res ^ " # " ^ pr_events evs)
+          | "HCLEAR" -> let st = !hist_state in hist_state := (fun id -> cclear (st id))
+          | "HSETMAX" -> let id = next_int () in let m = read_optnat () in
+            let st = !hist_state in hist_state := upd st (n_of_int id) (csetmax m (st (n_of_int id)))
+          | "HSETMAXALL" -> let m = read_optnat () in
+            let st = !hist_state in hist_state := (fun id -> csetmax m (st id))
+          | "HINVAL" -> incr hist_epoch
+          | "KEY" -> let nm = read_str () in print_endline (str_to_string (dispatch_key nm))
+          | "NODEEQ" -> let a = read_node () in let b = read_node () in
+            print_endline (if node_eqb a b then "1" else "0")
+          | "VISIT" ->   (* VISIT nmethods (suffix handler)* node *)
+            let k = next_int () in
+            let rec go k acc = if k = 0 then List.rev acc else
+                let sfx = read_str () in let h = next_int () in go (k - 1) ((sfx, n_of_int h) :: acc) in
+            let v = go k [] in
+            let nd = read_node () in
+            (match visit v nd with
+             | Called (h, _) -> Printf.printf "CALLED %d\n" (int_of_n h)
+             | RNone -> print_endline "NONE")
+          | "REGALL" -> dump_reg (r_all ())
+          | "REGBOOT" -> dump_reg (Some (r_boot ()))
+          | "REGONLY" -> let m = read_str () in dump_reg (r_only m)
+          | "READLIST" -> let s = read_str () in
+            (match read_rulelist s with Some l -> Printf.printf "OK %d\n" (List.length l) | None -> print_endline "NONE")
+          | "READRULE" -> let s = read_str () in
+            (match read_rule s with Some (_, rest) -> Printf.printf "OK %d\n" (List.length rest) | None -> print_endline "NONE")
           | t -> failwith ("bad command " ^ t))
      done
    with End_of_file -> ())
